@@ -163,7 +163,8 @@ Proof.
   cbn [enthaelt_text_loop]. destruct (k + len s <=? len t) eqn:E.
   - apply Z.leb_le in E. rewrite slice_window by lia. cbn [bind].
     replace (Z.to_nat (len t - len s - k + 1)) with (S (Z.to_nat (len t - len s - (k + 1) + 1))) by lia.
-    cbn [seq existsb]. unfold occ_b at 1. rewrite to_nat_len.
+    cbn [seq existsb]. change (occ_b t s (Z.to_nat k)) with (text_eqb (firstn (length s) (skipn (Z.to_nat k) t)) s).
+    rewrite to_nat_len.
     destruct (text_eqb (firstn (length s) (skipn (Z.to_nat k) t)) s) eqn:Eq; [reflexivity|].
     cbn [orb]. replace (S (Z.to_nat k)) with (Z.to_nat (k + 1)) by lia.
     replace (k + 1 + len s) with (k + 1 + len s) by lia. apply IH; lia.
@@ -180,7 +181,7 @@ Proof.
     + apply Z.eqb_eq in E0. rewrite E0. replace (Z.to_nat (0 - len s + 1)) with 0%nat by lia. reflexivity.
     + pose proof (enthaelt_text_loop_inv t s (length t + 1) 0 ltac:(lia) Hls) as H.
       replace (0 + 1) with 1 in H by lia. replace (0 + len s) with (len s) in H by lia.
-      rewrite H by (unfold len; lia). replace (len t - len s - 0 + 1) with (len t - len s + 1) by lia. reflexivity.
+      rewrite H by (unfold len in *; lia). replace (len t - len s - 0 + 1) with (len t - len s + 1) by lia. reflexivity.
 Qed.
 Lemma occurs_iff t s : existsb (occ_b t s) (positions t s) = true <-> exists pre suf, t = pre ++ s ++ suf.
 Proof.
@@ -204,7 +205,8 @@ Proof.
   - apply Z.leb_le in E. rewrite slice_window by lia. cbn [bind]. cbv zeta.
     replace (0 =? 0) with true by reflexivity.
     replace (Z.to_nat (len t - len s - k + 1)) with (S (Z.to_nat (len t - len s - (k + 1) + 1))) by lia.
-    cbn [seq filter]. unfold occ_b at 2. rewrite to_nat_len.
+    cbn [seq filter]. change (occ_b t s (Z.to_nat k)) with (text_eqb (firstn (length s) (skipn (Z.to_nat k) t)) s).
+    rewrite to_nat_len.
     replace (S (Z.to_nat k)) with (Z.to_nat (k + 1)) by lia.
     rewrite IH by lia.
     destruct (text_eqb (firstn (length s) (skipn (Z.to_nat k) t)) s); [rewrite len_cons|]; f_equal; lia.
@@ -219,7 +221,7 @@ Proof.
   - replace (len s =? 0) with false by (symmetry; apply Z.eqb_neq; lia).
     pose proof (anzahl_text_loop_inv t s (length t + 1) 0 0 ltac:(lia) Hls) as H.
     replace (0 + 1) with 1 in H by lia. replace (0 + len s) with (len s) in H by lia.
-    rewrite H by (unfold len; lia). replace (len t - len s - 0 + 1) with (len t - len s + 1) by lia. f_equal.
+    rewrite H by (unfold len in *; lia). replace (len t - len s - 0 + 1) with (len t - len s + 1) by lia. f_equal.
 Qed.
 (* "nicht überlappend": the code only looks at the positions 0, ns, 2 ns, ... *)
 Lemma nicht_ueberlappend_refuted : exists t s, s <> [] /\
@@ -258,7 +260,8 @@ Qed.
 Lemma prefix_iff t s : text_eqb (firstn (length s) t) s = true <-> exists suf, t = s ++ suf.
 Proof.
   rewrite text_eqb_spec. split.
-  - intros E. exists (skipn (length s) t). rewrite <- E at 1. now rewrite firstn_skipn.
+  - intros E. exists (skipn (length s) t).
+    transitivity (firstn (length s) t ++ skipn (length s) t); [symmetry; apply firstn_skipn|f_equal; exact E].
   - intros (suf & ->). rewrite firstn_app, firstn_all, Nat.sub_diag. cbn [firstn]. now rewrite app_nil_r.
 Qed.
 Lemma endet_mit_text_spec t s : s <> [] -> Endet_Mit_Text t s = Ok (text_eqb (skipn (length t - length s) t) s).
@@ -276,7 +279,8 @@ Qed.
 Lemma suffix_iff t s : text_eqb (skipn (length t - length s) t) s = true <-> exists pre, t = pre ++ s.
 Proof.
   rewrite text_eqb_spec. split.
-  - intros E. exists (firstn (length t - length s) t). rewrite <- E at 3. now rewrite firstn_skipn.
+  - intros E. exists (firstn (length t - length s) t).
+    transitivity (firstn (length t - length s) t ++ skipn (length t - length s) t); [symmetry; apply firstn_skipn|f_equal; exact E].
   - intros (pre & ->). rewrite app_length. replace (length pre + length s - length s)%nat with (length pre) by lia.
     rewrite skipn_app, skipn_all, Nat.sub_diag. reflexivity.
 Qed.
@@ -395,3 +399,377 @@ Proof.
 Qed.
 Lemma ist_text_leer_spec t : Ist_Text_Leer t = true <-> t = [].
 Proof. unfold Ist_Text_Leer, Ist_Text_Leer_Ref. rewrite Z.eqb_eq. split; [apply len_zero_nil|intros ->; reflexivity]. Qed.
+
+(* ---- Groß / Klein ---- *)
+Lemma schreiben_loop_inv f t : forall acc, schreiben_loop f t acc = acc ++ map f t.
+Proof.
+  induction t as [|b r IH]; intros acc; cbn [schreiben_loop map]; [now rewrite app_nil_r|].
+  rewrite IH. unfold Buchstabe_An_Text_Fuegen. now rewrite <- app_assoc.
+Qed.
+Lemma grossschreiben_spec t : Grossschreiben_Wert t = map Grossgeschrieben t.
+Proof. unfold Grossschreiben_Wert. now rewrite schreiben_loop_inv. Qed.
+Lemma kleinschreiben_spec t : Kleinschreiben_Wert t = map Kleingeschrieben t.
+Proof. unfold Kleinschreiben_Wert. now rewrite schreiben_loop_inv. Qed.
+
+(* the doc comment of Zeichen.Großgeschrieben: the German lower-case letters a-z, ä, ö, ü map to their
+   upper-case variant (32 code points below), everything else is returned unchanged *)
+Definition de_klein (c : Z) : bool := ((97 <=? c) && (c <=? 122)) || (c =? 228) || (c =? 246) || (c =? 252).
+Definition de_gross (c : Z) : bool := ((65 <=? c) && (c <=? 90)) || (c =? 196) || (c =? 214) || (c =? 220).
+Definition gross_ref (c : Z) : Z := if de_klein c then c - 32 else c.
+Definition klein_ref (c : Z) : Z := if de_gross c then c + 32 else c.
+
+Lemma byte_cases (P : Z -> bool) : forallb (fun n => P (Z.of_nat n)) (seq 0 256) = true ->
+  forall c, 0 <= c < 256 -> P c = true.
+Proof.
+  intros H c Hc. rewrite forallb_forall in H. specialize (H (Z.to_nat c)).
+  rewrite Z2Nat.id in H by lia. apply H. apply in_seq. lia.
+Qed.
+Lemma outside_latin1 c : c < 0 \/ 256 <= c -> Ist_Deutscher_Buchstabe c = false /\ de_klein c = false /\ de_gross c = false.
+Proof.
+  intros H. unfold Ist_Deutscher_Buchstabe, de_klein, de_gross.
+  repeat split; repeat (apply orb_false_iff; split); try (apply andb_false_iff); try (apply Z.eqb_neq; lia);
+    try (destruct (Z_le_gt_dec 256 c); [right; apply Z.leb_gt; lia|left; rewrite Z.geb_leb; apply Z.leb_gt; lia]);
+    try (destruct (Z_le_gt_dec 256 c); [right; apply Z.leb_gt; lia|left; apply Z.leb_gt; lia]).
+Qed.
+Lemma grossgeschrieben_spec c : Grossgeschrieben c = gross_ref c.
+Proof.
+  destruct (Z_lt_dec c 0) as [Hn|Hn]; [|destruct (Z_le_gt_dec 256 c) as [Hh|Hh]].
+  - destruct (outside_latin1 c ltac:(lia)) as (A & B & _). unfold Grossgeschrieben, gross_ref. now rewrite A, B.
+  - destruct (outside_latin1 c ltac:(lia)) as (A & B & _). unfold Grossgeschrieben, gross_ref. now rewrite A, B.
+  - apply Z.eqb_eq. apply (byte_cases (fun c => Grossgeschrieben c =? gross_ref c)); [vm_compute; reflexivity|lia].
+Qed.
+Lemma kleingeschrieben_spec c : Kleingeschrieben c = klein_ref c.
+Proof.
+  destruct (Z_lt_dec c 0) as [Hn|Hn]; [|destruct (Z_le_gt_dec 256 c) as [Hh|Hh]].
+  - destruct (outside_latin1 c ltac:(lia)) as (A & _ & B). unfold Kleingeschrieben, klein_ref. now rewrite A, B.
+  - destruct (outside_latin1 c ltac:(lia)) as (A & _ & B). unfold Kleingeschrieben, klein_ref. now rewrite A, B.
+  - apply Z.eqb_eq. apply (byte_cases (fun c => Kleingeschrieben c =? klein_ref c)); [vm_compute; reflexivity|lia].
+Qed.
+Lemma grossschreiben_text_spec t : Grossschreiben_Wert t = map gross_ref t.
+Proof. rewrite grossschreiben_spec. apply map_ext. apply grossgeschrieben_spec. Qed.
+Lemma kleinschreiben_text_spec t : Kleinschreiben_Wert t = map klein_ref t.
+Proof. rewrite kleinschreiben_spec. apply map_ext. apply kleingeschrieben_spec. Qed.
+
+(* ---- Polstern ---- *)
+Lemma wiederhole_vor n z : forall t, wiederhole n (fun t => Buchstabe_Vor_Text_Stellen t z) t = repeat z n ++ t.
+Proof.
+  induction n as [|n IH]; intros t; cbn [wiederhole repeat]; [reflexivity|].
+  rewrite IH. unfold Buchstabe_Vor_Text_Stellen.
+  change (z :: repeat z n) with (repeat z (S n)). rewrite (repeat_snoc z n). now rewrite <- app_assoc.
+Qed.
+Lemma wiederhole_an n z : forall t, wiederhole n (fun t => Buchstabe_An_Text_Fuegen t z) t = t ++ repeat z n.
+Proof.
+  induction n as [|n IH]; intros t; cbn [wiederhole repeat]; [now rewrite app_nil_r|].
+  rewrite IH. unfold Buchstabe_An_Text_Fuegen. now rewrite <- app_assoc.
+Qed.
+Lemma polster_links_spec t z n : Polster_Links t z n = repeat z (Z.to_nat (n - len t)) ++ t.
+Proof.
+  unfold Polster_Links. cbv zeta. destruct (n - len t <=? 0) eqn:E.
+  - apply Z.leb_le in E. replace (Z.to_nat (n - len t)) with 0%nat by lia. reflexivity.
+  - apply wiederhole_vor.
+Qed.
+Lemma polster_rechts_spec t z n : Polster_Rechts t z n = t ++ repeat z (Z.to_nat (n - len t)).
+Proof.
+  unfold Polster_Rechts. cbv zeta. destruct (n - len t <=? 0) eqn:E.
+  - apply Z.leb_le in E. replace (Z.to_nat (n - len t)) with 0%nat by lia. now rewrite app_nil_r.
+  - apply wiederhole_an.
+Qed.
+
+(* ---- Verbinden ---- *)
+Fixpoint join {E} (show : E -> text) (z : Z) (l : list E) : text :=
+  match l with
+  | [] => []
+  | [x] => show x
+  | x :: r => show x ++ z :: join show z r
+  end.
+Lemma verbinden_loop_inv {E} (show : E -> text) z (suf : list E) : forall pre acc,
+  verbinden_loop show (length suf) (len pre + 1) (pre ++ suf) z acc = Ok (acc ++ join show z suf).
+Proof.
+  induction suf as [|x r IH]; intros pre acc; cbn [verbinden_loop length join]; [now rewrite app_nil_r|].
+  rewrite rd_mid. cbn [bind].
+  replace (pre ++ x :: r) with ((pre ++ [x]) ++ r) by (rewrite <- app_assoc; reflexivity).
+  replace (len pre + 1 + 1) with (len (pre ++ [x]) + 1) by (rewrite len_app, len_cons, len_nil; lia).
+  rewrite IH. f_equal. destruct r as [|y r'].
+  - replace (len pre + 1 <? len ((pre ++ [x]) ++ [])) with false
+      by (symmetry; apply Z.ltb_ge; rewrite !len_app, len_cons, !len_nil; lia).
+    cbn [join]. now rewrite app_nil_r.
+  - replace (len pre + 1 <? len ((pre ++ [x]) ++ y :: r')) with true
+      by (symmetry; apply Z.ltb_lt; rewrite !len_app, !len_cons, len_nil; pose proof (len_nonneg r'); lia).
+    rewrite <- !app_assoc. reflexivity.
+Qed.
+Lemma verbinden_text_spec l z : Verbinden_Text l z = Ok (join (fun t => t) z l).
+Proof. apply (verbinden_loop_inv (fun t : text => t) z l [] []). Qed.
+Lemma verbinden_buchstabe_spec l z : Verbinden_Buchstabe l z = Ok (join (fun b => [b]) z l).
+Proof. apply (verbinden_loop_inv (fun b : Z => [b]) z l [] []). Qed.
+
+(* ---- Hamming ---- *)
+Definition mismatches (a b : text) : Z := len (filter (fun p => negb (fst p =? snd p)) (combine a b)).
+Lemma hamming_loop_inv (s1 s2 : text) : forall p1 p2 summe, length s1 = length s2 -> len p2 = len p1 ->
+  hamming_loop (length s1) (len p1 + 1) (p1 ++ s1) (p2 ++ s2) summe = Ok (summe + mismatches s1 s2).
+Proof.
+  revert s2. induction s1 as [|a s1 IH]; intros [|b s2] p1 p2 summe Hl Hp; cbn [length] in Hl; try lia; cbn [hamming_loop length].
+  - unfold mismatches. cbn. f_equal. lia.
+  - rewrite rd_mid. cbn [bind]. rewrite <- Hp. rewrite rd_mid. cbn [bind]. rewrite Hp.
+    replace (p1 ++ a :: s1) with ((p1 ++ [a]) ++ s1) by (rewrite <- app_assoc; reflexivity).
+    replace (p2 ++ b :: s2) with ((p2 ++ [b]) ++ s2) by (rewrite <- app_assoc; reflexivity).
+    replace (len p1 + 1 + 1) with (len (p1 ++ [a]) + 1) by (rewrite len_app, len_cons, len_nil; lia).
+    rewrite IH by (try lia; rewrite !len_app, !len_cons, !len_nil; lia).
+    f_equal. unfold mismatches. cbn [combine filter fst snd]. destruct (a =? b); cbn [negb]; [|rewrite len_cons]; lia.
+Qed.
+Lemma hamming_spec a b : length a = length b -> Hamming_Distanz a b = Ok (mismatches a b).
+Proof.
+  intros H. unfold Hamming_Distanz. replace (len a =? len b) with true by (symmetry; apply Z.eqb_eq; unfold len; lia).
+  cbn [negb]. change (hamming_loop (length a) 1 a b 0) with (hamming_loop (length a) (len (@nil Z) + 1) ([] ++ a) ([] ++ b) 0).
+  rewrite (hamming_loop_inv a b [] [] 0 H eq_refl). f_equal.
+Qed.
+Lemma hamming_ungleich a b : length a <> length b -> Hamming_Distanz a b = Ok (-1).
+Proof.
+  intros H. unfold Hamming_Distanz. replace (len a =? len b) with false by (symmetry; apply Z.eqb_neq; unfold len; lia). reflexivity.
+Qed.
+
+(* ---- Vergleiche_Text ---- *)
+Lemma vergleiche_refuted : exists t1 t2, t1 <> t2 /\ Vergleiche_Text t1 t2 = Err.
+Proof. exists [], [97]. split; [discriminate|]. vm_compute. reflexivity. Qed.
+
+Lemma vergleiche_loop_inv p : forall fuel s1 s2, s1 <> [] -> s2 <> [] -> (length s1 < fuel)%nat ->
+  exists r, vergleiche_loop fuel (p ++ s1) (p ++ s2) (len p + 1) = Ok r /\
+    (forall q a b r1 r2, s1 = q ++ a :: r1 -> s2 = q ++ b :: r2 -> a <> b -> r = a - b) /\
+    (forall c r2, s2 = s1 ++ c :: r2 -> r = -1) /\
+    (forall c r1, s1 = s2 ++ c :: r1 -> r = 1) /\
+    (s1 = s2 -> r = -1).
+Proof.
+  intros fuel s1. revert p fuel. induction s1 as [|a s1 IH]; intros p fuel s2 H1 H2 Hf; [congruence|].
+  destruct s2 as [|b s2]; [congruence|]. destruct fuel as [|f]; [lia|].
+  cbn [vergleiche_loop]. rewrite !rd_mid. cbn [bind]. destruct (a =? b) eqn:E.
+  - apply Z.eqb_eq in E. subst b. cbv zeta.
+    destruct s1 as [|a1 s1'].
+    + (* text1 exhausted *)
+      replace (len p + 1 + 1 >? len (p ++ [a])) with true
+        by (symmetry; rewrite Z.gtb_ltb; apply Z.ltb_lt; rewrite len_app, len_cons, len_nil; lia).
+      exists (-1). split; [reflexivity|]. repeat split.
+      * intros q x y r1 r2 Hq1 Hq2 Hne. destruct q as [|q0 q]; cbn in Hq1; injection Hq1 as -> Hq1; [injection Hq2 as ->; congruence|].
+        destruct q; discriminate.
+      * intros c r1 Hs. destruct s2; cbn in Hs; discriminate.
+    + replace (len p + 1 + 1 >? len (p ++ a :: a1 :: s1')) with false
+        by (symmetry; rewrite Z.gtb_ltb; apply Z.ltb_ge; rewrite len_app, !len_cons; pose proof (len_nonneg s1'); lia).
+      destruct s2 as [|b1 s2'].
+      * replace (len p + 1 + 1 >? len (p ++ [a])) with true
+          by (symmetry; rewrite Z.gtb_ltb; apply Z.ltb_lt; rewrite len_app, len_cons, len_nil; lia).
+        exists 1. split; [reflexivity|]. repeat split.
+        -- intros q x y r1 r2 Hq1 Hq2 Hne. destruct q as [|q0 q]; cbn in Hq2; injection Hq2 as -> Hq2; [injection Hq1 as ->; congruence|].
+           destruct q; discriminate.
+        -- intros c r2 Hs. cbn in Hs. discriminate.
+        -- intros Hs. discriminate.
+      * replace (len p + 1 + 1 >? len (p ++ a :: b1 :: s2')) with false
+          by (symmetry; rewrite Z.gtb_ltb; apply Z.ltb_ge; rewrite len_app, !len_cons; pose proof (len_nonneg s2'); lia).
+        replace (p ++ a :: a1 :: s1') with ((p ++ [a]) ++ a1 :: s1') by (rewrite <- app_assoc; reflexivity).
+        replace (p ++ a :: b1 :: s2') with ((p ++ [a]) ++ b1 :: s2') by (rewrite <- app_assoc; reflexivity).
+        replace (len p + 1 + 1) with (len (p ++ [a]) + 1) by (rewrite len_app, len_cons, len_nil; lia).
+        destruct (IH (p ++ [a]) f (b1 :: s2') ltac:(discriminate) ltac:(discriminate) ltac:(cbn [length] in *; lia))
+          as (r & Er & A & B & C & D).
+        exists r. split; [exact Er|]. repeat split.
+        -- intros q x y r1 r2 Hq1 Hq2 Hne. destruct q as [|q0 q]; cbn in Hq1, Hq2.
+           ++ injection Hq1 as -> _. injection Hq2 as -> _. congruence.
+           ++ injection Hq1 as _ Hq1. injection Hq2 as _ Hq2. apply (A q x y r1 r2 Hq1 Hq2 Hne).
+        -- intros c r2 Hs. apply (B c r2). cbn in Hs |- *. congruence.
+        -- intros c r1 Hs. apply (C c r1). cbn in Hs |- *. congruence.
+        -- intros Hs. apply D. congruence.
+  - apply Z.eqb_neq in E. exists (a - b). split; [reflexivity|]. repeat split.
+    + intros q x y r1 r2 Hq1 Hq2 Hne. destruct q as [|q0 q]; cbn in Hq1, Hq2.
+      * injection Hq1 as -> _. injection Hq2 as -> _. reflexivity.
+      * injection Hq1 as -> _. injection Hq2 as -> _. congruence.
+    + intros c r2 Hs. cbn in Hs. injection Hs as -> _. congruence.
+    + intros c r1 Hs. cbn in Hs. injection Hs as -> _. congruence.
+    + intros Hs. injection Hs as -> _. congruence.
+Qed.
+(* for two non-empty texts: 0 if equal; the code-point difference at the first mismatch; -1 / 1 if one is a proper prefix *)
+Lemma vergleiche_partial t1 t2 : t1 <> [] -> t2 <> [] ->
+  exists r, Vergleiche_Text t1 t2 = Ok r /\
+    (t1 = t2 -> r = 0) /\
+    (forall q a b r1 r2, t1 = q ++ a :: r1 -> t2 = q ++ b :: r2 -> a <> b -> r = a - b) /\
+    (forall c r2, t2 = t1 ++ c :: r2 -> r = -1) /\
+    (forall c r1, t1 = t2 ++ c :: r1 -> r = 1).
+Proof.
+  intros H1 H2. unfold Vergleiche_Text. destruct (text_eqb t1 t2) eqn:E.
+  - apply text_eqb_spec in E. subst t2. exists 0. split; [reflexivity|]. repeat split.
+    + intros q a b r1 r2 Ha Hb Hne. rewrite Ha in Hb. apply app_inv_head in Hb. injection Hb as Hb _. congruence.
+    + intros c r2 Hs. exfalso. assert (Hl : length t1 = length (t1 ++ c :: r2)) by (rewrite <- Hs; reflexivity).
+      rewrite app_length in Hl. cbn [length] in Hl. lia.
+    + intros c r2 Hs. exfalso. assert (Hl : length t1 = length (t1 ++ c :: r2)) by (rewrite <- Hs; reflexivity).
+      rewrite app_length in Hl. cbn [length] in Hl. lia.
+  - apply text_eqb_false in E.
+    destruct (vergleiche_loop_inv [] (length t1 + 1) t1 t2 H1 H2 ltac:(lia)) as (r & Er & A & B & C & D).
+    exists r. split; [exact Er|]. repeat split; auto. intros Heq. contradiction.
+Qed.
+
+(* =================================================================================================
+   Bounded statements (the bound is part of the statement; proved by vm_compute over the enumerated
+   domain) for the functions whose code is too irregular for a closed-form refinement, most of which
+   violate their documentation (see the _refuted lemmas). *)
+Fixpoint all_texts (alpha : list Z) (n : nat) : list text :=
+  match n with
+  | O => [[]]
+  | S k => [] :: flat_map (fun c => map (cons c) (all_texts alpha k)) alpha
+  end.
+Definition over (alpha : list Z) (t : text) : Prop := Forall (fun c => In c alpha) t.
+Lemma all_texts_complete alpha n : forall t, over alpha t -> (length t <= n)%nat -> In t (all_texts alpha n).
+Proof.
+  induction n as [|n IH]; intros t Ho Hl.
+  - destruct t; [left; reflexivity|cbn in Hl; lia].
+  - destruct t as [|c r]; [left; reflexivity|]. right. apply in_flat_map. exists c.
+    inversion Ho as [|c' r' Hc Hr]; subst. split; [exact Hc|]. apply in_map. apply IH; [exact Hr|cbn in Hl; lia].
+Qed.
+Lemma bounded2 alpha n m (P : text -> text -> bool) :
+  forallb (fun t => forallb (P t) (all_texts alpha m)) (all_texts alpha n) = true ->
+  forall t s, over alpha t -> over alpha s -> (length t <= n)%nat -> (length s <= m)%nat -> P t s = true.
+Proof.
+  intros H t s Ht Hs Lt Ls. rewrite forallb_forall in H.
+  specialize (H t (all_texts_complete alpha n t Ht Lt)). rewrite forallb_forall in H.
+  apply H. now apply all_texts_complete.
+Qed.
+
+Definition abc : list Z := [97; 98; 99].
+
+(* reference functions written with the list library only *)
+Definition ref_index (t s : text) : Z :=
+  match find (occ_b t s) (positions t s) with Some k => Z.of_nat k + 1 | None => -1 end.
+Fixpoint split_ref (z : Z) (t : text) : list text :=
+  match t with
+  | [] => [[]]
+  | c :: r => if c =? z then [] :: split_ref z r
+              else match split_ref z r with h :: tl => (c :: h) :: tl | [] => [[c]] end
+  end.
+Fixpoint fields_ref (m : list Z) (t : text) (cur : text) : list text :=
+  match t with
+  | [] => if len cur =? 0 then [] else [rev cur]
+  | c :: r => if existsb (fun x => x =? c) m
+              then (if len cur =? 0 then [] else [rev cur]) ++ fields_ref m r []
+              else fields_ref m r (c :: cur)
+  end.
+Definition strip_ref (z : Z) (t : text) : text := rev (drop_z z (rev (drop_z z t))).
+Definition aligned_count (t s : text) : Z :=
+  len (filter (fun j => occ_b t s (j * length s)) (seq 0 (S (length t)))).
+
+Definition list_eqb {E} (eqb : E -> E -> bool) : list E -> list E -> bool :=
+  fix go a b := match a, b with [] , [] => true | x :: a', y :: b' => eqb x y && go a' b' | _, _ => false end.
+
+(* Text_Index_Von_Text: whenever it answers, the answer is the first occurrence (or -1) *)
+Definition chk_index (t s : text) : bool :=
+  match s with [] => true | _ =>
+    match Text_Index_Von_Text t s with Ok r => r =? ref_index t s | Err => true | _ => false end end.
+Lemma text_index_von_text_bounded : forall t s, over abc t -> over abc s -> (length t <= 6)%nat -> (length s <= 3)%nat ->
+  s <> [] -> forall r, Text_Index_Von_Text t s = Ok r -> r = ref_index t s.
+Proof.
+  intros t s Ht Hs Lt Ls Hne r Hr.
+  pose proof (bounded2 abc 6 3 chk_index ltac:(vm_compute; reflexivity) t s Ht Hs Lt Ls) as H.
+  unfold chk_index in H. destruct s; [congruence|]. rewrite Hr in H. now apply Z.eqb_eq.
+Qed.
+Lemma text_index_von_text_refuted : exists t s, s <> [] /\ Text_Index_Von_Text t s = Err /\ ref_index t s = -1.
+Proof. exists [120; 120; 120; 97], [97; 98]. split; [discriminate|]. split; vm_compute; reflexivity. Qed.
+
+(* Spalte: correct unless the text ends with the separator *)
+Definition chk_spalte (t zs : text) : bool :=
+  match zs, rev t with
+  | [z], c :: _ => if c =? z then true else
+      match Spalte t z with Ok l => list_eqb text_eqb l (split_ref z t) | _ => false end
+  | _, _ => true
+  end.
+Lemma spalte_bounded : forall t z, over abc t -> In z abc -> (length t <= 7)%nat -> t <> [] -> last t 0 <> z ->
+  Spalte t z = Ok (split_ref z t).
+Proof.
+  intros t z Ht Hz Lt Hne Hlast.
+  pose proof (bounded2 abc 7 1 chk_spalte ltac:(vm_compute; reflexivity) t [z] Ht ltac:(constructor; [exact Hz|constructor]) Lt ltac:(cbn; lia)) as H.
+  unfold chk_spalte in H. destruct (rev t) as [|c r] eqn:Er.
+  - apply (f_equal (@rev Z)) in Er. rewrite rev_involutive in Er. cbn in Er. congruence.
+  - assert (Hl : last t 0 = c).
+    { apply (f_equal (@rev Z)) in Er. rewrite rev_involutive in Er. cbn [rev] in Er. rewrite Er. apply last_last. }
+    replace (c =? z) with false in H by (symmetry; apply Z.eqb_neq; congruence).
+    destruct (Spalte t z) as [l| | |]; try discriminate. f_equal.
+    clear -H. revert H. generalize (split_ref z t). induction l as [|x l IH]; intros [|y l'] H; cbn in H; try discriminate; [reflexivity|].
+    apply andb_true_iff in H. destruct H as [H1 H2]. apply text_eqb_spec in H1. subst. f_equal. now apply IH.
+Qed.
+Lemma spalte_refuted : exists t z, t <> [] /\ Spalte t z <> Ok (split_ref z t).
+Proof. exists [97; 44], 44. split; [discriminate|]. vm_compute. discriminate. Qed.
+
+(* Spalte_Text: refuted; what holds on the bounded domain: without an occurrence of the separator text, [t] *)
+Definition chk_spalte_text (t s : text) : bool :=
+  if (len s <=? 1) || existsb (occ_b t s) (positions t s) then true
+  else match Spalte_Text t s with Ok l => list_eqb text_eqb l [t] | Err => true | _ => false end.
+Lemma spalte_text_bounded : forall t s, over abc t -> over abc s -> (length t <= 6)%nat -> (length s <= 3)%nat ->
+  1 < len s -> existsb (occ_b t s) (positions t s) = false -> forall l, Spalte_Text t s = Ok l -> l = [t].
+Proof.
+  intros t s Ht Hs Lt Ls H1 Hno l Hl.
+  pose proof (bounded2 abc 6 3 chk_spalte_text ltac:(vm_compute; reflexivity) t s Ht Hs Lt Ls) as H.
+  unfold chk_spalte_text in H. rewrite Hno, Hl in H.
+  replace (len s <=? 1) with false in H by (symmetry; apply Z.leb_gt; lia). cbn [orb] in H.
+  destruct l as [|x [|y l']]; cbn in H; try discriminate.
+  - apply andb_true_iff in H. destruct H as [H _]. apply text_eqb_spec in H. now subst.
+  - rewrite andb_false_r in H. discriminate.
+Qed.
+Lemma spalte_text_refuted : exists t s, Spalte_Text t s = Ok [[120]; [97; 98]] /\ t = [120] ++ s ++ [] ++ s ++ [].
+Proof. exists [120; 97; 98; 97; 98], [97; 98]. split; [vm_compute; reflexivity|reflexivity]. Qed.
+
+(* Finde_Subtext: refuted twice (equal lengths always give [1]; an occurrence at the last position is missed);
+   on the bounded domain every reported index is an occurrence when the lengths differ *)
+Definition chk_finde (t s : text) : bool :=
+  if (len t =? len s) || (len s =? 0) then true
+  else match Finde_Subtext t s with Ok l => forallb (fun i => (1 <=? i) && occ_b t s (Z.to_nat (i - 1))) l | Err => true | _ => false end.
+Lemma finde_subtext_bounded : forall t s, over abc t -> over abc s -> (length t <= 6)%nat -> (length s <= 3)%nat ->
+  s <> [] -> length t <> length s -> forall l, Finde_Subtext t s = Ok l -> forall i, In i l -> 1 <= i /\ occ_b t s (Z.to_nat (i - 1)) = true.
+Proof.
+  intros t s Ht Hs Lt Ls Hne Hlen l Hl i Hi.
+  pose proof (bounded2 abc 6 3 chk_finde ltac:(vm_compute; reflexivity) t s Ht Hs Lt Ls) as H.
+  unfold chk_finde in H. rewrite Hl in H.
+  replace (len t =? len s) with false in H by (symmetry; apply Z.eqb_neq; unfold len; lia).
+  replace (len s =? 0) with false in H by (symmetry; apply Z.eqb_neq; destruct s; [congruence|rewrite len_cons; pose proof (len_nonneg s); lia]).
+  cbn [orb] in H. rewrite forallb_forall in H. specialize (H i Hi). apply andb_true_iff in H. destruct H as [A B].
+  split; [now apply Z.leb_le|exact B].
+Qed.
+Lemma finde_subtext_refuted_gleichlang : exists t s, Finde_Subtext t s = Ok [1] /\ occ_b t s 0 = false.
+Proof. exists [97; 98], [120; 121]. split; vm_compute; reflexivity. Qed.
+Lemma finde_subtext_refuted_ende : exists t s, Finde_Subtext t s = Ok [1; 3] /\ occ_b t s 3 = true.
+Proof. exists [97; 98; 97; 97], [97]. split; vm_compute; reflexivity. Qed.
+
+(* Trim: refuted for one-letter texts; bounded: for every other text it strips both ends *)
+Definition chk_trim (t zs : text) : bool :=
+  match zs with
+  | [z] => if len t =? 1 then true else match Trim t z with Ok r => text_eqb r (strip_ref z t) | _ => false end
+  | _ => true
+  end.
+Lemma trim_bounded : forall t z, over abc t -> In z abc -> (length t <= 8)%nat -> length t <> 1%nat -> Trim t z = Ok (strip_ref z t).
+Proof.
+  intros t z Ht Hz Lt Hl.
+  pose proof (bounded2 abc 8 1 chk_trim ltac:(vm_compute; reflexivity) t [z] Ht ltac:(constructor; [exact Hz|constructor]) Lt ltac:(cbn; lia)) as H.
+  unfold chk_trim in H. replace (len t =? 1) with false in H by (symmetry; apply Z.eqb_neq; unfold len; lia).
+  destruct (Trim t z) as [r| | |]; try discriminate. apply text_eqb_spec in H. now subst.
+Qed.
+Lemma trim_refuted : exists t z, Trim t z = Ok [] /\ strip_ref z t = t /\ t <> [].
+Proof. exists [97], 120. split; [vm_compute; reflexivity|]. split; [reflexivity|discriminate]. Qed.
+
+(* Text_Anzahl_Text_Nicht_Überlappend counts the occurrences at multiples of the needle length *)
+Definition chk_aligned (t s : text) : bool :=
+  match s, t with [], _ => true | _, [] => true | _, _ =>
+    match Text_Anzahl_Text_Nicht_Ueberlappend t s with Ok r => r =? aligned_count t s | _ => false end end.
+Lemma nicht_ueberlappend_bounded : forall t s, over abc t -> over abc s -> (length t <= 6)%nat -> (length s <= 3)%nat ->
+  s <> [] -> t <> [] -> Text_Anzahl_Text_Nicht_Ueberlappend t s = Ok (aligned_count t s).
+Proof.
+  intros t s Ht Hs Lt Ls Hs0 Ht0.
+  pose proof (bounded2 abc 6 3 chk_aligned ltac:(vm_compute; reflexivity) t s Ht Hs Lt Ls) as H.
+  unfold chk_aligned in H. destruct s; [congruence|]. destruct t; [congruence|].
+  destruct (Text_Anzahl_Text_Nicht_Ueberlappend _ _) as [r| | |]; try discriminate. apply Z.eqb_eq in H. now subst.
+Qed.
+
+(* Spalten_Spaltmenge_Text: on the bounded domain, the maximal runs of letters outside the set *)
+Definition chk_fields (t m : text) : bool :=
+  match t, m with [], _ => true | _, [] => true | _, _ =>
+    match Spalten_Spaltmenge_Text_Ref t m with Ok l => list_eqb text_eqb l (fields_ref m t []) | _ => false end end.
+Lemma spaltmenge_bounded : forall t m, over abc t -> over abc m -> (length t <= 6)%nat -> (length m <= 2)%nat ->
+  t <> [] -> m <> [] -> Spalten_Spaltmenge_Text_Ref t m = Ok (fields_ref m t []).
+Proof.
+  intros t m Ht Hm Lt Lm Ht0 Hm0.
+  pose proof (bounded2 abc 6 2 chk_fields ltac:(vm_compute; reflexivity) t m Ht Hm Lt Lm) as H.
+  unfold chk_fields in H. destruct t as [|c t']; [congruence|]. destruct m as [|d m']; [congruence|].
+  destruct (Spalten_Spaltmenge_Text_Ref _ _) as [l| | |]; try discriminate. f_equal.
+  revert H. generalize (fields_ref (d :: m') (c :: t') []). clear. induction l as [|x l IH]; intros [|y l'] H; cbn in H; try discriminate; [reflexivity|].
+  apply andb_true_iff in H. destruct H as [H1 H2]. apply text_eqb_spec in H1. subst. f_equal. now apply IH.
+Qed.
